@@ -106,4 +106,54 @@ def jsonSetters : List (String × String) := [("JSONIndent", "indent"), ("JSONUs
 
 def grpcCodec : List String := ["Marshal -> Marshal", "Unmarshal -> Unmarshal", "Name = \"proto\""]
 
+/-- (function, statements outside the arms of its `switch MsgType`): the whole control shape around the dispatch -/
+def shimFrame : List (String × List String) := [("Clone", ["0:switch MsgType(m)", "1:cases MessageTypeGogo,MessageTypeGoogle,MessageTypeGoogleV1,default"]),
+  ("Equal", ["0:t1, t2 := MsgType(m1), MsgType(m2)", "0:if t1 != t2", "1:return false", "0:switch t1", "1:cases MessageTypeGogo,MessageTypeGoogle,MessageTypeGoogleV1,default"]),
+  ("MarshalText", ["0:if tm, ok := msg.(encoding.TextMarshaler); ok", "1:res, err := tm.MarshalText()", "1:if err != nil", "2:return \"…\", err", "1:return string(res), nil", "0:switch MsgType(msg)", "1:cases MessageTypeGogo,MessageTypeGoogle,MessageTypeGoogleV1,default"]),
+  ("RangeExtensions", ["0:msgType := MsgType(msg)", "0:switch msgType", "1:cases MessageTypeGogo,MessageTypeGoogle,MessageTypeGoogleV1,MessageTypeUnknown", "0:return nil"]),
+  ("HasExtension", ["0:switch MsgType(msg)", "1:cases MessageTypeGogo,MessageTypeGoogle,MessageTypeGoogleV1,default"]),
+  ("ClearExtension", ["0:switch MsgType(msg)", "1:cases MessageTypeGogo,MessageTypeGoogle,MessageTypeGoogleV1,default", "0:panic(fmt.Sprintf(\"…\", ext, msg))"]),
+  ("GetExtension", ["0:switch MsgType(msg)", "1:cases MessageTypeGogo,MessageTypeGoogle,MessageTypeGoogleV1,default"]),
+  ("SetExtension", ["0:switch MsgType(msg)", "1:cases MessageTypeGogo,MessageTypeGoogle,MessageTypeGoogleV1,default"]),
+  ("ClearAllExtensions", ["0:switch MsgType(msg)", "1:cases MessageTypeGogo,MessageTypeGoogle,MessageTypeGoogleV1,default"])]
+
+/-- (function, MessageType case, statements of the arm) -/
+def shimArms : List (String × String × List String) := [("Clone", "MessageTypeGogo", ["0:return gogo.Clone(m.(gogo.Message))"]),
+  ("Clone", "MessageTypeGoogle", ["0:return protov2.Clone(m.(protoreflect.ProtoMessage))"]),
+  ("Clone", "MessageTypeGoogleV1", ["0:return golang.Clone(m.(protoiface.MessageV1))"]),
+  ("Clone", "default", ["0:return nil"]),
+  ("Equal", "MessageTypeGogo", ["0:return gogo.Equal(m1.(gogo.Message), m2.(gogo.Message))"]),
+  ("Equal", "MessageTypeGoogle", ["0:return protov2.Equal(m1.(protoreflect.ProtoMessage), m2.(protoreflect.ProtoMessage))"]),
+  ("Equal", "MessageTypeGoogleV1", ["0:return golang.Equal(m1.(protoiface.MessageV1), m2.(protoiface.MessageV1))"]),
+  ("Equal", "default", ["0:return false"]),
+  ("MarshalText", "MessageTypeGogo", ["0:return gogo.MarshalTextString(msg.(gogo.Message)), nil"]),
+  ("MarshalText", "MessageTypeGoogle", ["0:return prototext.Format(msg.(protoreflect.ProtoMessage)), nil"]),
+  ("MarshalText", "MessageTypeGoogleV1", ["0:return golang.MarshalTextString(msg.(protoiface.MessageV1)), nil"]),
+  ("MarshalText", "default", ["0:return \"…\", fmt.Errorf(\"…\", msg)"]),
+  ("RangeExtensions", "MessageTypeGogo", ["0:exts, err := gogo.ExtensionDescs(msg.(gogo.Message))", "0:if err != nil", "1:return err", "0:for _, ext range exts", "1:if err = fn(ext, ext.Name, ext.Field); err != nil", "2:return err", "0:return nil"]),
+  ("RangeExtensions", "MessageTypeGoogle", ["0:var err error", "0:protov2.RangeExtensions(msg.(protoreflect.ProtoMessage), func#1)", "1:func#1", "2:err = fn(v, string(t.TypeDescriptor().FullName()), int32(t.TypeDescriptor().Descriptor().Number()))", "2:return err == nil", "0:return err"]),
+  ("RangeExtensions", "MessageTypeGoogleV1", ["0:exts, err := golang.ExtensionDescs(msg.(protoiface.MessageV1))", "0:if err != nil", "1:return err", "0:for _, ext range exts", "1:if err = fn(ext, string(ext.TypeDescriptor().FullName()), int32(ext.TypeDescriptor().Descriptor().Number())); err != nil", "2:return err", "0:return nil"]),
+  ("RangeExtensions", "MessageTypeUnknown", ["0:return fmt.Errorf(\"…\", msg)"]),
+  ("HasExtension", "MessageTypeGogo", ["0:ed, ok := ext.(*gogo.ExtensionDesc)", "0:if !ok", "1:return false", "0:return gogo.HasExtension(msg.(gogo.Message), ed)"]),
+  ("HasExtension", "MessageTypeGoogle", ["0:et, ok := ext.(protoreflect.ExtensionType)", "0:if !ok", "1:return false", "0:return protov2.HasExtension(msg.(protoreflect.ProtoMessage), et)"]),
+  ("HasExtension", "MessageTypeGoogleV1", ["0:ed, ok := ext.(*protoimpl.ExtensionInfo)", "0:if !ok", "1:return false", "0:return golang.HasExtension(msg.(protoiface.MessageV1), ed)"]),
+  ("HasExtension", "default", ["0:return false"]),
+  ("ClearExtension", "MessageTypeGogo", ["0:if ed, ok := ext.(*gogo.ExtensionDesc); ok", "1:gogo.ClearExtension(msg.(gogo.Message), ed)", "1:return"]),
+  ("ClearExtension", "MessageTypeGoogle", ["0:if et, ok := ext.(protoreflect.ExtensionType); ok", "1:protov2.ClearExtension(msg.(protoreflect.ProtoMessage), et)", "1:return"]),
+  ("ClearExtension", "MessageTypeGoogleV1", ["0:if ed, ok := ext.(*protoimpl.ExtensionInfo); ok", "1:golang.ClearExtension(msg.(protoiface.MessageV1), ed)", "1:return"]),
+  ("ClearExtension", "default", ["0:panic(fmt.Sprintf(\"…\", msg))"]),
+  ("GetExtension", "MessageTypeGogo", ["0:ed, ok := ext.(*gogo.ExtensionDesc)", "0:if !ok", "1:return nil, fmt.Errorf(\"…\", ext)", "0:return gogo.GetExtension(msg.(gogo.Message), ed)"]),
+  ("GetExtension", "MessageTypeGoogle", ["0:et, ok := ext.(protoreflect.ExtensionType)", "0:if !ok", "1:return nil, fmt.Errorf(\"…\", ext)", "0:return protov2.GetExtension(msg.(protoreflect.ProtoMessage), et), nil"]),
+  ("GetExtension", "MessageTypeGoogleV1", ["0:ed, ok := ext.(*protoimpl.ExtensionInfo)", "0:if !ok", "1:return nil, fmt.Errorf(\"…\", ext)", "0:return golang.GetExtension(msg.(protoiface.MessageV1), ed)"]),
+  ("GetExtension", "default", ["0:return nil, fmt.Errorf(\"…\", msg)"]),
+  ("SetExtension", "MessageTypeGogo", ["0:ed, ok := ext.(*gogo.ExtensionDesc)", "0:if !ok", "1:return fmt.Errorf(\"…\", ext)", "0:return gogo.SetExtension(msg.(gogo.Message), ed, val)"]),
+  ("SetExtension", "MessageTypeGoogle", ["0:et, ok := ext.(protoreflect.ExtensionType)", "0:if !ok", "1:return fmt.Errorf(\"…\", ext)", "0:protov2.SetExtension(msg.(protoreflect.ProtoMessage), et, val)", "0:return nil"]),
+  ("SetExtension", "MessageTypeGoogleV1", ["0:ed, ok := ext.(*protoimpl.ExtensionInfo)", "0:if !ok", "1:return fmt.Errorf(\"…\", ext)", "0:return golang.SetExtension(msg.(protoiface.MessageV1), ed, val)"]),
+  ("SetExtension", "default", ["0:return fmt.Errorf(\"…\", ext)"]),
+  ("ClearAllExtensions", "MessageTypeGogo", ["0:gogo.ClearAllExtensions(msg.(gogo.Message))"]),
+  ("ClearAllExtensions", "MessageTypeGoogle", ["0:m := msg.(protoreflect.ProtoMessage)", "0:protov2.RangeExtensions(m, func#1)", "1:func#1", "2:protov2.ClearExtension(m, xt)", "2:return true"]),
+  ("ClearAllExtensions", "MessageTypeGoogleV1", ["0:golang.ClearAllExtensions(msg.(protoiface.MessageV1))"]),
+  ("ClearAllExtensions", "default", [])]
+
+
 end Csproto.Generated
